@@ -124,6 +124,11 @@ fn run_check(id: &str, tier: Tier) -> i32 {
             r.parts.push(c01::part_c10(tier));
             finish(r)
         }
+        "C11" => {
+            let mut r = Report::new("C11", tier, "model_checking");
+            r.parts.push(c01::part_c11(tier));
+            finish(r)
+        }
         "C12" => {
             let mut r = Report::new("C12", tier, "model_checking");
             r.parts.push(sched::part_sched(tier));
@@ -138,6 +143,7 @@ fn run_check(id: &str, tier: Tier) -> i32 {
         "C14" => {
             let mut r = Report::new("C14", tier, "model_checking");
             r.parts.push(c14::part_dr7(tier));
+            r.parts.push(c01::part_c14_regs(tier));
             finish(r)
         }
         "C17" => {
